@@ -35,7 +35,7 @@ def layouts(draw, max_blocks=6, presentations=("shape", "spacing_exact", "adjust
         dy = draw(st.one_of(st.sampled_from([1.0, 0.5, 3.0, 10.0, 0.1]), gen.log_uniform(-2, 3)))
     pres = draw(st.sampled_from(list(presentations)))
     lay = dict(W=W, S=S, dx=dx, dy=dy, nb_n=nb_n, nb_e=nb_e, pres=pres)
-    if pres in ("adjust_spacing", "adjust_region"):
+    if pres in ("adjust_spacing", "adjust_region", "inferred_spacing"):
         lay["te"] = draw(st.sampled_from([-0.4, -0.25, 0.1, 0.3, 0.4, 0.0]))
         lay["tn"] = draw(st.sampled_from([-0.4, -0.25, 0.1, 0.3, 0.4, 0.0]))
     if pres in ("spacing_exact",) and dx == dy:
@@ -67,6 +67,8 @@ def verde_kwargs(lay):
                     adjust="region", spacing=(lay["dy"], lay["dx"]))
     if pres == "inferred":
         return dict(shape=(lay["nb_n"], lay["nb_e"]))
+    if pres == "inferred_spacing":
+        return dict(spacing=((N - S) / (lay["nb_n"] + lay.get("tn", 0.0)), (E - W) / (lay["nb_e"] + lay.get("te", 0.0))))
     raise ValueError(pres)
 
 
